@@ -56,20 +56,23 @@ def r1(ctx):
             w = where(body)
             A, B = operand_word(1), operand_word(2)
             good = False
+            # an impl may delegate to a sibling impl (`&a & &b` = `*a & *b`): the sibling is inlined (it is checked itself)
+            forms = [norm(s.ret)]
+            try:
+                forms.append(ninl(ctx, s.ret))
+            except Exception:
+                pass
             if kind == 'bin':
-                r = norm(s.ret)
-                good = any(match(BB(('bin', op, a, b)), r) is not None for a in A for b in B)
-                got = sh(r)
+                good = any(match(BB(('bin', op, a, b)), r) is not None for r in forms for a in A for b in B)
+                got = sh(forms[0])
             elif kind == 'un':
-                r = norm(s.ret)
-                good = any(match(BB(('un', 'Not', a)), r) is not None for a in A)
-                got = sh(r)
+                good = any(match(BB(('un', 'Not', a)), r) is not None for r in forms for a in A)
+                got = sh(forms[0])
             elif kind == 'mul':
-                r = norm(s.ret)
                 good = any(match(BB(call('core::num::<impl u64>::wrapping_mul', a, b)), r) is not None or
                            match(BB(call('core::num::<impl u64>::wrapping_mul', b, a)), r) is not None
-                           for a in A for b in B)
-                got = sh(r)
+                           for r in forms for a in A for b in B)
+                got = sh(forms[0])
             else:
                 fin = norm(s.final.get(('p', 1), ('unk', 'no write')))
                 base = ('mem', ('p', 1))
